@@ -7,7 +7,10 @@ import time
 import traceback
 import warnings
 
+import dask
 import numpy as np
+
+dask.config.set(scheduler="synchronous")
 
 from . import decide as D
 from . import stubs
@@ -89,6 +92,7 @@ def run_config(fn, params, cfg_key, seed=0, tier="quick", options=None, max_path
         seen_plans.add(key)
         ctx = Ctx(plan=plan, seed=seed, options=opts)
         B = SymBackend(ctx, cfg_key, seed, tier)
+        B.refuted = {v["obligation"] for v in res["violations"]}
         sym_err = None
         with use_ctx(ctx), stubs.installed(), warnings.catch_warnings():
             warnings.simplefilter("ignore")
